@@ -31,6 +31,92 @@ def entries_kinds(p):
     return out
 
 
+def nonpositive_weights_normalised(repo, rep):
+    """R5.12: every fill() counts a datum only when `weight > 0` - a zero, negative or NaN weight is a skipped row.  Every _numpy adds
+    the raw `weights.sum()` to entries while its children/bins receive masked weights, so the vectorised entry point must hand only
+    non-negative weights down: an array through `numpy.where(w > 0, w, 0)` (NaN -> 0 as well), and a scalar that is not > 0 must not reach
+    _numpy at all.  Accepted idioms are enumerated here; anything else is reported."""
+    import ast as _ast
+
+    from .. import cfg as cfgmod
+    from ..astutil import walk_local_stmt
+
+    r12 = rep.rule("R5.12", "fillnumpy hands only positive-or-zero weights to the tree (rows with a negative or NaN weight are skipped as in fill)", floor=2)
+    cont = repo.cls("Container", "histogrammar.defs")
+    f = repo.own_method(cont, "fillnumpy")
+    rep.analysed_functions.add(f.construct)
+    if len(f.params) < 3:
+        raise AnalysisError(f"{f.construct}: unexpected signature")
+    wp = f.params[2]
+    calls = [n for n in walk_local_stmt(f.node) if isinstance(n, _ast.Call) and isinstance(n.func, _ast.Attribute) and n.func.attr == "_numpy"]
+    if not calls:
+        raise AnalysisError(f"{f.construct}: no call of _numpy")
+
+    def positive_test(t, name):
+        """`name > 0` / `0 < name` (positive=True)"""
+        if isinstance(t, _ast.Compare) and len(t.ops) == 1:
+            l, r, op = t.left, t.comparators[0], t.ops[0]
+            zero = lambda e: isinstance(e, _ast.Constant) and isinstance(e.value, (int, float)) and e.value == 0
+            nm = lambda e: isinstance(e, _ast.Name) and e.id == name
+            if nm(l) and zero(r) and isinstance(op, _ast.Gt):
+                return True
+            if zero(l) and nm(r) and isinstance(op, _ast.Lt):
+                return True
+        return False
+
+    def is_where_clip(e):
+        """numpy.where(w > 0, w, 0): the source name, or None"""
+        if isinstance(e, _ast.Call) and isinstance(e.func, _ast.Attribute) and e.func.attr == "where" and len(e.args) == 3:
+            c0, a1, a2 = e.args
+            if isinstance(a1, _ast.Name) and isinstance(a2, _ast.Constant) and a2.value == 0 and positive_test(c0, a1.id):
+                return a1.id
+        return None
+
+    g = cfgmod.build(f.node)
+    dom = g.dominators()
+    tcd = g.transitive_control_deps()
+    for call in calls:
+        warg = call.args[1] if len(call.args) > 1 else next((k.value for k in call.keywords if k.arg == "weights"), None)
+        holder = [n for n in g.nodes if n.kind == "stmt" and n.ast is not None and any(x is call for x in _ast.walk(n.ast))]
+        if warg is None or not isinstance(warg, _ast.Name) or not holder:
+            r12.ob(False)
+            rep.finding("R5.12", f, call, "the weights handed to _numpy are not a plain local: the normalisation of non-positive weights cannot be followed", stmt="weights argument of _numpy")
+            continue
+        h = holder[0]
+        # (1) arrays: an assignment `w = numpy.where(src > 0, src, 0)` under `isinstance(src, numpy.ndarray)` dominating... or unconditional
+        clips = [n for n in g.nodes if n.kind == "stmt" and isinstance(n.ast, _ast.Assign) and any(isinstance(t, _ast.Name) and t.id == warg.id for t in n.ast.targets)
+                 and is_where_clip(n.ast.value) in (wp, warg.id)]
+        arr_ok = False
+        for cnode in clips:
+            ctl = [g.nodes[x[0]] for x in tcd.get(cnode.id, set())]
+            under_isarray = [t for t in ctl if t.ast is not None and "ndarray" in _ast.unparse(t.ast)]
+            if cnode.id in dom[h.id] or under_isarray:
+                arr_ok = True
+        r12.ob(arr_ok, "fillnumpy: weight arrays pass through numpy.where(w > 0, w, 0)")
+        if not arr_ok:
+            rep.finding("R5.12", f, call, f"`{_ast.unparse(call)[:60]}` receives the caller's weight array as it is: every _numpy adds the raw `weights.sum()` to entries, while "
+                        f"fill() skips a row whose weight is not > 0 and the bins receive masked weights - with a negative (or NaN) weight in the array the node's "
+                        f"entries no longer equals the weight in its bins and can become negative", stmt="weight array not normalised before _numpy")
+        # (2) scalars: the call is not reached with a scalar that is not > 0: some test `w > 0` controls the call on its true edge, or an early return on the false one
+        sc_ok = False
+        for (tid, lab) in tcd.get(h.id, set()):
+            t = g.nodes[tid]
+            if t.ast is None:
+                continue
+            txt = _ast.unparse(t.ast)
+            for x in _ast.walk(t.ast):
+                if positive_test(x, wp) or positive_test(x, warg.id):
+                    # the call lies on the side where the test holds (lab "T"), or on the F side of `not w > 0`
+                    neg = any(isinstance(y, _ast.UnaryOp) and isinstance(y.op, _ast.Not) and any(z is x for z in _ast.walk(y)) for y in _ast.walk(t.ast))
+                    if (lab == "T" and not neg) or (lab == "F" and neg) or "ndarray" in txt:
+                        sc_ok = True
+        r12.ob(sc_ok, "fillnumpy: a scalar weight that is not > 0 does not reach _numpy")
+        if not sc_ok:
+            rep.finding("R5.12", f, call, f"`{_ast.unparse(call)[:60]}` is reached with any scalar weight: fill() ignores a datum whose weight is not > 0, but Count and every "
+                        f"container add `weight * rows` to entries in _numpy - a zero, negative or NaN scalar weight makes entries negative/NaN instead of "
+                        f"leaving the tree untouched", stmt="non-positive scalar weight reaches _numpy")
+
+
 def run(repo, rep, tier):
     rep.extra["explanation"] = (
         "Bookkeeping decided on the routing tables of the abstract interpreter (every order-type region of the datum, every "
@@ -66,6 +152,7 @@ def run(repo, rep, tier):
     rep.borrow(repo, "C03", {"R3.10": ("R5.9", "a Count child of Label/UntypedLabel/Index/Branch receives the batch with a known length, so it ends with the parent's entries", 4)})
     rep.borrow(repo, "C02", {"R2.5": ("R5.8", "Bag keys are normalised so that equal data (NaN included) share one key: the weights still sum to entries after a JSON round trip", 2)})
     rep.borrow(repo, "C07", {"R7.2": ("R5.6", "child += other_child updates the child (every __iadd__ returns self), so children keep the parent's entries", 19)})
+    nonpositive_weights_normalised(repo, rep)
     for c in prims:
         fill = repo.own_method(c, "fill")
         npf = repo.own_method(c, "_numpy")
